@@ -211,7 +211,17 @@ def make_packet(r, ids13, n=None):
 def make_garbage(r, ids13, n, prev: bytes):
     out = bytearray()
     last = prev[-1] if prev else None
-    for _ in range(n):
+    if n >= 2 and len(ids13) >= 2 and r.random() < 0.5:
+        # octet pairs made of parts of two different registered ids (low octet of one, high octet of another, and the crossed
+        # combination high(a) low(b)) - no registered id, but close to two of them
+        a, b = r.sample(ids13, 2)
+        for pair in ((a & 0xFF, (b >> 8) | (r.getrandbits(3) << 5)), ((a >> 8) | (r.getrandbits(3) << 5), b & 0xFF)):
+            cand = bytes(pair)
+            ok_ = (int.from_bytes(cand, "big") & 0x1FFF) not in ids13 and (last is None or ((last << 8 | cand[0]) & 0x1FFF) not in ids13)
+            if ok_ and len(out) + 2 <= n:
+                out += cand
+                last = cand[1]
+    for _ in range(n - len(out)):
         for _ in range(1000):
             b = r.getrandbits(8)
             if last is None or ((last << 8 | b) & 0x1FFF) not in ids13:
@@ -306,7 +316,48 @@ def k_objects(ctx, seed, schedule):
               observed=[x.hex()[:40] for x in returned][:6], expected=[x.hex()[:40] for x in pk][:6], cuts=cuts)
 
 
-KINDS = {"objects": k_objects, "frag": k_frag, "garbage": k_garbage, "random": k_random}
+def k_two_queues(ctx, seed):
+    """Two independent streams, each with its own analysis queue, handled alternately in one process: what the parser did
+    for one queue (a split packet left behind, an abandoned stream) has no influence on the other."""
+    sp = _sp()
+    r = random.Random(f"twoq/{seed}")
+    case = {"k": "two_queues", "seed": seed}
+    ctx.case("two_queues", seed, sample=case)
+    S = []
+    for _ in range(2):
+        ids13 = sorted({r.getrandbits(13) for _ in range(r.randrange(1, 3))})
+        pk = [make_packet(r, ids13, r.choice((7, 9, 20, 40, 300))) for _ in range(r.randrange(1, 6))]
+        stream = b"".join(pk)
+        cuts = sorted(r.sample(range(1, len(stream)), min(len(stream) - 1, r.randrange(1, 8))))
+        chunks, prev = [], 0
+        for c in cuts + [len(stream)]:
+            chunks.append(stream[prev:c])
+            prev = c
+        S.append({"ids13": ids13, "ids": [sp.PacketId.from_raw(i) for i in ids13], "pk": pk, "chunks": chunks, "q": collections.deque(), "got": [], "appended": bytearray()})
+    abandon = r.random() < 0.3            # the first stream is sometimes given up half-way (its queue keeps a split packet for ever)
+    while any(s_["chunks"] for s_ in S):
+        i = r.randrange(2)
+        s_ = S[i]
+        if not s_["chunks"] or (abandon and i == 0 and len(s_["chunks"]) == 1):
+            if abandon and i == 0 and len(s_["chunks"]) == 1:
+                s_["chunks"] = []
+            continue
+        ch = s_["chunks"].pop(0)
+        s_["q"].append(bytearray(ch))
+        s_["appended"] += ch
+        ok, res = attempt(sp.parse_space_packets, s_["q"], s_["ids"])
+        ctx.ev("parser.queues_independent")
+        if not ok:
+            return ctx.fail("parser.queues_independent", "raised", exc_sig(res), case, error=repr(res))
+        s_["got"].extend(bytes(x) for x in res)
+        want, consumed = split_stream(bytes(s_["appended"]), set(s_["ids13"]))
+        tail = b"".join(bytes(x) for x in s_["q"])
+        if s_["got"] != want or tail != bytes(s_["appended"][consumed:]):
+            return ctx.fail("parser.queues_independent", "stream_disturbed_by_the_other_queue", "missing" if len(s_["got"]) < len(want) else "different", case, stream=i,
+                            observed=[x.hex()[:30] for x in s_["got"]][:5], expected=[x.hex()[:30] for x in want][:5])
+
+
+KINDS = {"two_queues": k_two_queues, "objects": k_objects, "frag": k_frag, "garbage": k_garbage, "random": k_random}
 
 
 def selftest(ctx):
@@ -360,6 +411,8 @@ def run(ctx):
     for j in range(ctx.n(1500, 200_000)):
         k_random(ctx, ctx.seed * 1_000_003 + ctx.shard[0] * 100_003 + j)
     for j in range(ctx.n(600, 60_000)):
+        k_two_queues(ctx, ctx.seed * 1_000_003 + ctx.shard[0] * 100_003 + j)
+    for j in range(ctx.n(600, 60_000)):
         k_objects(ctx, ctx.seed * 1_000_003 + ctx.shard[0] * 100_003 + j, SCHEDULES[j % 4])
     for j in range(ctx.n(600, 60_000)):
         k_garbage(ctx, ctx.seed * 1_000_003 + ctx.shard[0] * 100_003 + j, SCHEDULES[j % 4])
@@ -369,7 +422,7 @@ def conclude(ctx):
     cc = ctx.tables.get("cut_classes", {})
     for c in ["in_header@1", "in_header@2", "in_header@3", "in_header@4", "in_header@5", "after_header", "mid_payload", "one_before_end", "packet_boundary"]:
         ctx.require(cc.get(c, 0) > 0, f"cut class {c} never observed")
-    for m in ("parser.queue_is_the_tail", "parser.returned_objects_stable", "parser.ids_from_objects", "parser.call", "parser.conservation", "parser.exactly_once", "parser.final", "parser.idempotent"):
+    for m in ("parser.queues_independent", "parser.queue_is_the_tail", "parser.returned_objects_stable", "parser.ids_from_objects", "parser.call", "parser.conservation", "parser.exactly_once", "parser.final", "parser.idempotent"):
         ctx.require(ctx.monitors.get(m, {}).get("evaluations", 0) > 0, f"monitor {m} never evaluated")
     for s in SCHEDULES:
         ctx.require(ctx.classes.get(f"frag/{s}", 0) > 0 and ctx.classes.get(f"garbage/{s}", 0) > 0, f"schedule {s} not exercised")
